@@ -59,14 +59,19 @@ pub fn sysv_cycle(rng: &mut Rng, enc: Enc, nsyms: usize, cycle: usize, variant: 
         }
         _ => {}
     }
+    // the Alpha and s390x ELF64 ABIs use 8-byte hash words (sh_entsize 8): the same table with wide words now and then
+    let w = if enc.c64 && (variant >> 12) % 4 == 0 { 8 } else { 4 };
+    if w == 8 {
+        what.push_str(", 64-bit hash words");
+    }
     let mut hash = Vec::new();
-    enc.put(&mut hash, nbucket as u64, 4);
-    enc.put(&mut hash, nchain, 4);
+    enc.put(&mut hash, nbucket as u64, w);
+    enc.put(&mut hash, nchain, w);
     for b in &bucket {
-        enc.put(&mut hash, *b, 4);
+        enc.put(&mut hash, *b, w);
     }
     for c in &chain {
-        enc.put(&mut hash, *c, 4);
+        enc.put(&mut hash, *c, w);
     }
     if let Some(a) = arche {
         what.push_str(", ");
@@ -84,10 +89,14 @@ pub fn gnu_nostop(rng: &mut Rng, enc: Enc, nsyms: usize, variant: u64) -> HashCa
     let names: Vec<Vec<u8>> = (0..nsyms).map(|i| if i == 0 { Vec::new() } else { format!("gsym{i}").into_bytes() }).collect();
     let mut tab = symtab::build(enc, &names, rng);
     let arche = if rng.bool() { Some(symtab::apply_archetype(&mut tab, rng)) } else { None };
-    let query = b"absent_name".to_vec();
+    // the name every walker asks for (walk.rs NAMES) and that no generated symbol has
+    let query = b"memset".to_vec();
     let h = ref_gnu_hash(&query);
     let nbucket = 1 + rng.below(3);
-    let symoffset = 1u64;
+    // the table's index space sometimes sits at the very top of the 32-bit range: symbol index = start + chain index
+    // then runs past 2^32 (the symbol table is far smaller; lookups must fail cleanly)
+    let top = (variant >> 8) % 5 == 0;
+    let symoffset = if top { 0xffff_ffffu64 - rng.below(4) } else { 1u64 };
     let bloom_size = 1u64 << rng.below(3);
     let shift = rng.below(32);
     let mut hash = Vec::new();
@@ -106,13 +115,19 @@ pub fn gnu_nostop(rng: &mut Rng, enc: Enc, nsyms: usize, variant: u64) -> HashCa
                 nsyms as u64 + 1000
             }
             2 => 0xffff_ffff,
+            _ if top => (symoffset + rng.below(3)).min(0xffff_ffff),
             _ => 1 + rng.below(nsyms as u64 - 1),
         };
         enc.put(&mut hash, v, 4);
     }
-    for _ in symoffset as usize..nsyms {
-        // same hash as the query, stop bit clear
-        let w = if variant % 4 == 3 { rng.next_u64() & 0xffff_fffe } else { (h & !1) as u64 };
+    if top {
+        what.push_str(", symbol indexes start at 2^32-1-d");
+    }
+    let lead = if top { 1 + rng.below(4) } else { 0 };
+    for i in 1..nsyms {
+        // same hash as the query, stop bit clear (behind a few entries with another hash when the index space is at the
+        // top, so that the first match is not the first chain entry)
+        let w = if variant % 4 == 3 { rng.next_u64() & 0xffff_fffe } else if (i as u64) <= lead { ((h ^ 0x10) & !1) as u64 } else { (h & !1) as u64 };
         enc.put(&mut hash, w, 4);
     }
     if let Some(a) = arche {
